@@ -331,6 +331,34 @@ func Fixed() []*Grammar {
 			P("ArgList", Al(Call(A(0)), "Expr"), Al(Call(A(0), A(2)), "ArgList", `","`, "Expr")),
 		}})
 
+	// stmtconf: the same language plus a dangling else: a large automaton (> 64 states,
+	// item sets > 64 items) WITH conflicts; needs -a
+	add(&Grammar{ID: "stmtconf", Tight: true, Ambiguous: true, Flags: []string{"-a"}, Seps: wsSeps,
+		Lex: append(letters(),
+			LexDef{Kind: LexToken, Name: "id", Pattern: `_letter {_letter | _digit}`, Samples: []string{"a", "bc", "x1"}},
+			LexDef{Kind: LexToken, Name: "num", Pattern: `_digit {_digit}`, Samples: []string{"0", "31"}},
+			ws()),
+		Prods: []*Prod{
+			P("Unit", Al(CallCtx(A(0)), "Decls")),
+			P("Decls", Al(none), Al(Call(A(0), A(1)), "Decls", "Decl")),
+			P("Decl",
+				Al(Call(T(1), A(2), A(3)), `"func"`, "id", "Params", "Body"),
+				Al(Call(T(1), A(2)), `"var"`, "id", "Init", `";"`)),
+			P("Params", Al(Call(), `"("`, `")"`), Al(Call(A(1)), `"("`, "IdList", `")"`)),
+			P("IdList", Al(Call(T(0)), "id"), Al(Call(A(0), T(2)), "IdList", `","`, "id")),
+			P("Init", Al(none), Al(Pass(1), `"="`, "Expr")),
+			P("Body", Al(Call(A(1)), `"{"`, "StmtList", `"}"`)),
+			P("StmtList", Al(none), Al(Call(A(0), A(1)), "StmtList", "Stmt")),
+			P("Stmt", Al(Call(A(0)), "Expr", `";"`), Al(none, "Body"), Er(Call(A(0)), `";"`),
+				Al(Call(A(1), A(2)), `"if"`, "Expr", "Stmt"), Al(Call(A(1), A(2), A(4)), `"if"`, "Expr", "Stmt", `"else"`, "Stmt")),
+			P("Expr", Al(none, "Term"), Al(Call(A(0), A(2)), "Expr", `"+"`, "Term"), Al(Call(A(0), A(2)), "Expr", `"-"`, "Term")),
+			P("Term", Al(none, "Unary"), Al(Call(A(0), A(2)), "Term", `"*"`, "Unary")),
+			P("Unary", Al(none, "Primary"), Al(Call(A(1)), `"-"`, "Unary")),
+			P("Primary", Al(Call(T(0)), "id"), Al(Call(T(0)), "num"), Al(Pass(1), `"("`, "Expr", `")"`), Al(Call(T(0), A(2)), "id", `"("`, "Args", `")"`)),
+			P("Args", Al(none), Al(none, "ArgList")),
+			P("ArgList", Al(Call(A(0)), "Expr"), Al(Call(A(0), A(2)), "ArgList", `","`, "Expr")),
+		}})
+
 	return gs
 }
 
